@@ -6,6 +6,7 @@ Driver commands for the stub generator's naming logic (C26):
 * `(mangle snake|variant|escape <hex name>)` → hex of the mangled name (`panic` for `variant` of the
   empty name);
 * `(stub-check <schema>)` → `ok` | `(conflict vertex A B)` | `(conflict field T A B)` |
+  `(conflict entrypoint A B)` |
   `panic:unsupported-type` | `panic:pretty-print`;
 * `(stub-compile <schema>)` → `compiles` | `compile-error` | `not-generated:<stub-check answer>` — the
   model's *prediction* from names alone (rustc is not modelled).
@@ -57,6 +58,7 @@ def renderOutcome : Outcome → String
   | .ok => "ok"
   | .conflictVertex a b => s!"(conflict vertex {nameToString a} {nameToString b})"
   | .conflictField t a b => s!"(conflict field {nameToString t} {nameToString a} {nameToString b})"
+  | .conflictEntrypoint a b => s!"(conflict entrypoint {nameToString a} {nameToString b})"
   | .panicUnsupportedType => "panic:unsupported-type"
   | .panicPrettyPrint => "panic:pretty-print"
 
